@@ -11,6 +11,13 @@ from ._boolean import Null, Full
 from cohdl.utility import Span
 
 
+
+def _truncdiv_int(lhs: int, rhs: int) -> int:
+    # integer division truncated towards zero
+    # (float division is not exact for wide operands)
+    quotient = abs(lhs) // abs(rhs)
+    return quotient if (lhs < 0) == (rhs < 0) else -quotient
+
 class Unsigned(BitVector):
     _is_unsigned = True
     _SubTypes = {}
@@ -359,7 +366,7 @@ class Unsigned(BitVector):
         if rhs == 0:
             return Unsigned[result_width]()
 
-        return Unsigned[result_width](lhs - rhs * int(lhs / rhs))
+        return Unsigned[result_width](lhs - rhs * _truncdiv_int(lhs, rhs))
 
     @_intrinsic
     def _cohdl_rrem_(self, lhs: int | Integer) -> Unsigned:
@@ -373,7 +380,7 @@ class Unsigned(BitVector):
         if rhs == 0:
             return Unsigned[result_width]()
 
-        return Unsigned[result_width](lhs - rhs * int(lhs / rhs))
+        return Unsigned[result_width](lhs - rhs * _truncdiv_int(lhs, rhs))
 
     @_intrinsic
     def __lshift__(self, rhs: Unsigned | int | Integer) -> Unsigned:
